@@ -10,6 +10,7 @@ One expression at a time; no path exploration, no solver.
 from __future__ import annotations
 
 import ast
+import copy
 from fractions import Fraction
 from typing import Callable
 
@@ -226,6 +227,19 @@ class Normalizer:
                 return Poly.atom(f'abs({args[0].canon()})')
             if fn in FLOAT_NAMES and len(args) == 1:
                 return args[0]
+            if fn == 'sum' and len(e.args) == 1 and not e.keywords and isinstance(e.args[0], (ast.GeneratorExp, ast.ListComp)) \
+                    and len(e.args[0].generators) == 1 and isinstance(e.args[0].generators[0].iter, (ast.Tuple, ast.List)) \
+                    and isinstance(e.args[0].generators[0].target, ast.Name):
+                # sum(f(t) for t in (a, b, c) if c(t)): the finite sum, element by element
+                g = e.args[0].generators[0]
+                tot = Poly.const(0)
+                for x in g.iter.elts:
+                    sub = _SubstName(g.target.id, x)
+                    term: ast.expr = sub.visit(copy.deepcopy(e.args[0].elt))
+                    for cond in reversed(g.ifs):
+                        term = ast.IfExp(test=sub.visit(copy.deepcopy(cond)), body=term, orelse=ast.Constant(value=0))
+                    tot = tot + self.poly(ast.fix_missing_locations(term))
+                return tot
             if fn in ('min', 'max') and not e.keywords and self.facts is not None and len(args) >= 2:
                 keep = list(args)
                 for a in args:
@@ -269,6 +283,14 @@ class Normalizer:
                 return self.poly(e.body if dv else e.orelse)
             return Poly.atom(f'ite({self.text(e.test)},{self.poly(e.body).canon()},{self.poly(e.orelse).canon()})')
         return Poly.atom(self.text(e))
+
+
+class _SubstName(ast.NodeTransformer):
+    def __init__(self, name: str, val: ast.expr) -> None:
+        self.name, self.val = name, val
+
+    def visit_Name(self, n: ast.Name) -> ast.AST:  # noqa: N802
+        return copy.deepcopy(self.val) if n.id == self.name and isinstance(n.ctx, ast.Load) else n
 
 
 class Facts:
